@@ -141,6 +141,14 @@ CHECKS = {
             "shapes/layouts enumerated (alu 1-D/2-D i64, gemmx matmul i8->i32/i8, identity/strided/offset/TSL chosen or explicit 2- and "
             "3-level); xDMA extension rewrites and gemm-with-add/rescale-only kernels not covered; known finding: layout offsets dropped.",
             "concrete pipeline observation + z3 queries over symbolic iteration points / temporal steps (LIA with concrete div/mod)", "3/C02"),
+    "C09": (OT,
+            "The real set-memory-layout (tiled=true/false) runs on dart.schedule ops (generated gemmx schedules over all loop orders of "
+            "batch / two-level M tiles / N / K tiles with optional bias operand, the repository's convolution schedule, schedules from "
+            "the real dart-scheduler); the TSL of every inserted snax.layout_cast is read and z3 proves over two symbolic indices that "
+            "distinct elements get distinct addresses and that tile bounds cover exactly the shape; operands with an explicit layout "
+            "stay untouched; ensure_access_granularity is executed with a symbolic unbounded stride on a real op/context.",
+            "shapes concrete; snax_gemmx only; i8/i32 operands.",
+            "concrete pass runs + z3 injectivity queries over symbolic index pairs; symbolic execution of the padding kernel", "3/C09"),
 }
 
 NOT_YET = "check not built yet (work in progress in this round); no claim is made"
